@@ -1420,7 +1420,7 @@ def _pipeline_multi(ctx, R, graphs, rules, data=None, via_modifier=False):
         for gi, g_ in enumerate(graphs)]
     MMC = 'model_modifier:ModelModifier'
     it.hooks['flatbuffer_utils.read_model_from_bytearray'] = lambda a, k: src_model
-    it.hooks[f'{MMC}._process_constant_map'] = lambda a, k: 0
+    it.hooks[f'{MMC}._process_constant_map'] = lambda a, k: (2 ** 33 if via_modifier == 'large' else 0)   # the size that selects the serialiser
     it.hooks[f'{MMC}._serialize_small_model'] = lambda a, k: a[1]
     it.hooks[f'{MMC}._serialize_large_model'] = lambda a, k: a[1]
     mmo = Obj(MMC, {'_model_content': 'SOURCE-BYTES', '_constant_map': [], '_transformation_instruction_generator': tig, '_transformation_performer': it.construct(PERF, [], {}, None, 0)})
@@ -1792,11 +1792,12 @@ def rule_weight_bias_parameters(ctx, R: str):
 
 
 # --------------------------------------- signatures through ModelModifier itself
-def rule_signature_contract(ctx, R: str):
+def rule_signature_contract(ctx, R: str, large: bool = False):
   """C02, signature clause, through ModelModifier.modify_model (parse -> deep copy -> instructions -> rewrite ->
   signature update -> serialise): after quantization every signature input / output denotes the same tensor as the
   corresponding subgraph input / output, for one and two subgraphs, with the model outputs covered or not."""
-  rs = ctx.rule(R, 'through modify_model: every signature input / output is the corresponding subgraph input / output after the rewrite (one and two subgraphs)', floor=1)
+  rs = ctx.rule(R, ('large-model path of modify_model (constants above the threshold): ' if large else 'through modify_model: ') +
+                'every signature input / output is the corresponding subgraph input / output after the rewrite (one and two subgraphs)', floor=1)
   mm = ctx.repo.func('model_modifier:ModelModifier.modify_model')
   ctx.instance(R)
   A = ([('ax', 0), ('aw', 1, (2, 2)), ('ah', 0), ('aout', 0)], [('afc', 'fc', [0, 1], [2]), ('asm', 'sm', [2], [3])], [0], [3, 2])
@@ -1810,7 +1811,7 @@ def rule_signature_contract(ctx, R: str):
   ]
   rs.exhaustive = True
   for cname, graphs, rules in cases:
-    m, why = _pipeline_multi(ctx, R, graphs, rules, via_modifier=True)
+    m, why = _pipeline_multi(ctx, R, graphs, rules, via_modifier='large' if large else True)
     label = f'case "{cname}"'
     if m is None:
       ctx.check(R, False, mm.node, mm, label, why)
